@@ -3,7 +3,7 @@
   Models: PS/Model/Prob.lean (tagged_det_grammar.py, tagged_u_grammar.py) on top of
   PS/Model/Grammar.lean (det_grammar.py / ttcfg.py), PS/Model/Cfg.lean (`CFG.programs`) and
   PS/Model/Ucfg.lean (u_grammar.py / u_cfg.py).  Lemmas: PS/Proofs/{Lang, ProbDet, Mass,
-  Programs, Ucfg, UMass, UOps}.lean.
+  Programs, Ucfg, UMass, UOps, FromCfg}.lean.
 
   Statement: the probability reported for a program is the product of the probabilities of the
   rules of its unique derivation (times the probability of its start symbol when there are
@@ -26,6 +26,7 @@ import PS.Proofs.Programs
 import PS.Proofs.Ucfg
 import PS.Proofs.UMass
 import PS.Proofs.UOps
+import PS.Proofs.FromCfg
 namespace PS.G
 open PS
 
@@ -244,6 +245,15 @@ theorem C04_sum_one_u_partial (G : UCFG U) (tg : UTags U) (hn : NormalisedU G tg
     simp only [List.mem_cons, List.not_mem_nil, or_false] at hs'
     rw [hs']; exact hw
   rw [he]; exact h
+
+/-- **`UCFG.from_CFG`** yields an unambiguous grammar with the same language: every program has
+    exactly one derivation if it is in the CFG and none otherwise — so the hypothesis
+    `unambiguousOn` of the theorems above holds for every grammar obtained this way -/
+theorem C04_from_cfg {S : Type} [DecidableEq S] (G : TT S Unit) (hk : (AList.keys G.rules).Nodup)
+    (hr : ∀ e ∈ G.rules, (AList.keys e.2).Nodup) (t : Prog) :
+    unambiguousOn (fromCFG G) t = true ∧ genU (fromCFG G) t = gen G t G.start ∧
+    (fromCFG G).starts.length = 1 :=
+  ⟨FromCfg.fromCFG_unambiguous G hk hr t, FromCfg.genU_fromCFG G hk hr t, rfl⟩
 
 /-- **uniform()** for unambiguous grammars is normalised (every alternative of a non-terminal gets
     1/(number of alternatives of that non-terminal), every start symbol 1/(number of starts)) -/
